@@ -116,7 +116,7 @@ def check(run: Run):
         "read-only methods are compared with a new object of the same class built from the spec rows, on a seeded sample of the visited results",
         "strided slices of the annotatable Alignment raise NotImplementedError by design and are counted as unsupported",
         "when no column / no sequence is left cogent3 returns None / {}; the spec allows that or an object with empty rows",
-        "gap fractions: thresholds are small rationals num/den handed over as the float num/den; the spec compares exactly (count*den <= num*cells), equal to the float comparison for these sizes",
+        "gap fractions: thresholds are small rationals num/den handed over as the float num/den, or that value -/+ 1e-12 (strict-threshold idiom); the spec compares exactly (count*den <= or < num*cells), equal to the float comparison because attainable fractions differ by >= 1/36 and round-off is ~1e-16: no tolerance is used",
     ]
 
 
